@@ -219,7 +219,8 @@ class _AdaByronAddrPayload(NamedTuple):
             ValueError: If the serialization is not valid
         """
         addr_payload: Tuple[bytes, Dict[int, bytes], int] = cbor2.loads(ser_payload_bytes)  # type: ignore [assignment]
-        if (len(addr_payload) != 3
+        if (not isinstance(addr_payload, (list, tuple))
+                or len(addr_payload) != 3
                 or not isinstance(addr_payload[0], bytes)
                 or not isinstance(addr_payload[1], dict)
                 or not isinstance(addr_payload[2], int)):
@@ -295,7 +296,8 @@ class _AdaByronAddr(NamedTuple):
             ValueError: If the serialization is not valid
         """
         addr_bytes: Tuple[cbor2.CBORTag, int] = cbor2.loads(ser_addr_bytes)     # type: ignore [assignment]
-        if (len(addr_bytes) != 2
+        if (not isinstance(addr_bytes, (list, tuple))
+                or len(addr_bytes) != 2
                 or not isinstance(addr_bytes[0], cbor2.CBORTag)
                 or not isinstance(addr_bytes[1], int)):
             raise ValueError("Invalid address encoding")
@@ -429,7 +431,7 @@ class AdaByronAddrDecoder(IAddrDecoder):
             return dec_addr.payload.root_hash_bytes + (dec_addr.payload.attrs.hd_path_enc_bytes
                                                        if dec_addr.payload.attrs.hd_path_enc_bytes is not None
                                                        else b"")
-        except cbor2.CBORDecodeValueError as ex:
+        except cbor2.CBORDecodeError as ex:
             raise ValueError("Invalid CBOR encoding") from ex
 
 
